@@ -671,6 +671,11 @@ theorem receive_value (k : RKind) (rf : CommaOk.RegFile) (v c : Nat) :
   run_of_checkForm (f := .receive) (s := .v)
     (forall_kinds (p := checkForm .receive true .v) (by decide) k) v c rf
 
+/-- the emitter and the VM agree on the bank of every kind (`kindToType` / `setFromReflectValue`) -/
+theorem setter_bank_is_emitter_bank (k : RKind) : setterBank k = emitterBank k := by
+  have h := forall_kinds (p := fun k => decide (setterBank k = emitterBank k)) (by decide) k
+  simpa using h
+
 /-- **a site executed again and again** (a loop, a function called several times, the same temporary
 register reused by later statements): with the register file kept from one execution to the next,
 the VM model yields what Go says — the value and `true`, or the zero value and `false`, each time,
@@ -681,11 +686,6 @@ theorem vmRun_eq_spec (f : Form) (k : RKind) (c : Nat) (es : List Exec) (rf : Co
   | assert => exact vmRun_eq_spec_of .assert k c (fun v rf => assert_fail_zero k rf v c) (fun v rf => assert_ok_value k rf v c) es rf
   | mapIndex => exact vmRun_eq_spec_of .mapIndex k c (fun v rf => mapIndex_absent_zero k rf v c) (fun v rf => mapIndex_present_value k rf v c) es rf
   | receive => exact vmRun_eq_spec_of .receive k c (fun v rf => receive_closed_zero k rf v c) (fun v rf => receive_value k rf v c) es rf
-
-/-- the emitter and the VM agree on the bank of every kind (`kindToType` / `setFromReflectValue`) -/
-theorem setter_bank_is_emitter_bank (k : RKind) : setterBank k = emitterBank k := by
-  have h := forall_kinds (p := fun k => decide (setterBank k = emitterBank k)) (by decide) k
-  simpa using h
 
 -- non-vacuity: a stale register is really overwritten; and a destination code that writes only on
 -- the successful path (the shape `if ok { vm.setString(c, v.String()) }`) does NOT pass the check
